@@ -143,13 +143,13 @@ func (r *Run) finish() []Ev {
 	defer r.mu.Unlock()
 	res := map[int]any{}
 	for _, e := range r.evs {
-		if e["ev"] == "ret" {
-			res[e["id"].(int)] = e["res"]
+		if id, ok := e["id"].(int); ok && e["ev"] == "ret" {
+			res[id] = e["res"]
 		}
 	}
 	for _, e := range r.evs {
-		if e["ev"] == "call" {
-			if v, ok := res[e["id"].(int)]; ok {
+		if id, isCall := e["id"].(int); isCall && e["ev"] == "call" {
+			if v, ok := res[id]; ok {
 				e["res"] = v
 			} else {
 				e["res"] = Ev{"k": "none"}
@@ -212,3 +212,5 @@ func report(v Ev) {
 	b, _ := json.Marshal(v)
 	fmt.Printf("REPORT %s\n", b)
 }
+
+func synctest_wait() { synctest.Wait() }
